@@ -5,60 +5,60 @@ Helper definitions and lemmas for `JSight/Props/C08_Include.lean` (INCLUDE handl
 namespace JSight.C08
 open JSight JSight.Gen
 
-/-! ### unfolding equations of `scanFile` -/
+/-! ### unfolding equations of `scanIncFile` -/
 
-theorem scanFile_zero (fs : FS) (stack : List (Nat × Nat)) (cur pos : Nat) (toks : List FTok) (st : PScan) :
-    scanFile fs 0 stack cur pos toks st = .error (.inc .fuel) := by
+theorem scanIncFile_zero (fs : FS) (stack : List (Nat × Nat)) (cur pos : Nat) (toks : List FTok) (st : PScan) :
+    scanIncFile fs 0 stack cur pos toks st = .error (.inc .fuel) := by
   cases toks <;> rfl
 
-theorem scanFile_nil (fs : FS) (fuel : Nat) (stack : List (Nat × Nat)) (cur pos : Nat) (st : PScan) :
-    scanFile fs (fuel + 1) stack cur pos [] st =
+theorem scanIncFile_nil (fs : FS) (fuel : Nat) (stack : List (Nat × Nat)) (cur pos : Nat) (st : PScan) :
+    scanIncFile fs (fuel + 1) stack cur pos [] st =
       match flushPending st with
       | .error e => .error e
       | .ok st' => if anyExplicit st'.ctx.frames then .error (.ctx .unclosedAtEOF) else .ok st' := rfl
 
-theorem scanFile_dir (fs : FS) (fuel : Nat) (stack : List (Nat × Nat)) (cur pos : Nat) (d : Dir)
+theorem scanIncFile_dir (fs : FS) (fuel : Nat) (stack : List (Nat × Nat)) (cur pos : Nat) (d : Dir)
     (rest : List FTok) (st : PScan) :
-    scanFile fs (fuel + 1) stack cur pos (.dir d :: rest) st =
+    scanIncFile fs (fuel + 1) stack cur pos (.dir d :: rest) st =
       match flushPending st with
       | .error e => .error e
       | .ok st' =>
         if d.kind == Kind.Jsight && !stack.isEmpty then .error (.inc (.jsightInIncluded cur pos))
-        else scanFile fs fuel stack cur (pos + 1) rest
+        else scanIncFile fs fuel stack cur (pos + 1) rest
           { st' with pending := some d, traces := st'.traces ++ [(d.id, stack)] } := rfl
 
-theorem scanFile_close (fs : FS) (fuel : Nat) (stack : List (Nat × Nat)) (cur pos : Nat)
+theorem scanIncFile_close (fs : FS) (fuel : Nat) (stack : List (Nat × Nat)) (cur pos : Nat)
     (rest : List FTok) (st : PScan) :
-    scanFile fs (fuel + 1) stack cur pos (.close :: rest) st =
+    scanIncFile fs (fuel + 1) stack cur pos (.close :: rest) st =
       match flushPending st with
       | .error e => .error e
       | .ok st' =>
         match closeExplicit st'.ctx.frames st'.ctx.roots with
         | .error e => .error (.ctx e)
-        | .ok c => scanFile fs fuel stack cur (pos + 1) rest { st' with ctx := c } := rfl
+        | .ok c => scanIncFile fs fuel stack cur (pos + 1) rest { st' with ctx := c } := rfl
 
-theorem scanFile_incl (fs : FS) (fuel : Nat) (stack : List (Nat × Nat)) (cur pos f : Nat) (valid : Bool)
+theorem scanIncFile_incl (fs : FS) (fuel : Nat) (stack : List (Nat × Nat)) (cur pos f : Nat) (valid : Bool)
     (rest : List FTok) (st : PScan) :
-    scanFile fs (fuel + 1) stack cur pos (.incl f valid :: rest) st =
+    scanIncFile fs (fuel + 1) stack cur pos (.incl f valid :: rest) st =
       if !valid then .error (.inc (.badName cur pos))
       else match fs.get? f with
         | none => .error (.inc (.missing cur pos))
         | some .directory => .error (.inc (.isDirectory cur pos))
         | some (.file toks) =>
           if stack.any (·.1 == cur) then .error (.inc (.recursion cur pos))
-          else match scanFile fs fuel ((cur, pos) :: stack) f 0 toks st with
+          else match scanIncFile fs fuel ((cur, pos) :: stack) f 0 toks st with
             | .error e => .error e
-            | .ok st' => scanFile fs fuel stack cur (pos + 1) rest st' := rfl
+            | .ok st' => scanIncFile fs fuel stack cur (pos + 1) rest st' := rfl
 
 /-- the INCLUDE of an existing file, from a file that is not on the stack: the pushing step -/
-theorem scanFile_incl_file (fs : FS) (fuel : Nat) (stack : List (Nat × Nat)) (cur pos f : Nat)
+theorem scanIncFile_incl_file (fs : FS) (fuel : Nat) (stack : List (Nat × Nat)) (cur pos f : Nat)
     (rest body : List FTok) (st : PScan) (hf : fs.get? f = some (.file body))
     (hs : stack.any (·.1 == cur) = false) :
-    scanFile fs (fuel + 1) stack cur pos (.incl f true :: rest) st =
-      match scanFile fs fuel ((cur, pos) :: stack) f 0 body st with
+    scanIncFile fs (fuel + 1) stack cur pos (.incl f true :: rest) st =
+      match scanIncFile fs fuel ((cur, pos) :: stack) f 0 body st with
       | .error e => .error e
-      | .ok st' => scanFile fs fuel stack cur (pos + 1) rest st' := by
-  rw [scanFile_incl]; simp [hf, hs]
+      | .ok st' => scanIncFile fs fuel stack cur (pos + 1) rest st' := by
+  rw [scanIncFile_incl]; simp [hf, hs]
 
 /-! ### the file system -/
 
@@ -111,20 +111,20 @@ theorem file_length_lt_fsSize {fs : FS} {f : Nat} {body : List FTok} (h : fs.get
 /-- success of a scan implies success of the scan of every suffix, from some state -/
 theorem ok_suffix (fs : FS) (stack : List (Nat × Nat)) (cur : Nat) (rest : List FTok) (r : PScan) :
     ∀ (pre : List FTok) (fuel pos : Nat) (st : PScan),
-      scanFile fs fuel stack cur pos (pre ++ rest) st = .ok r →
-      ∃ fuel' pos' st', scanFile fs fuel' stack cur pos' rest st' = .ok r := by
+      scanIncFile fs fuel stack cur pos (pre ++ rest) st = .ok r →
+      ∃ fuel' pos' st', scanIncFile fs fuel' stack cur pos' rest st' = .ok r := by
   intro pre
   induction pre with
   | nil => intro fuel pos st h; exact ⟨fuel, pos, st, h⟩
   | cons t pre ih =>
     intro fuel pos st h
     cases fuel with
-    | zero => rw [scanFile_zero] at h; cases h
+    | zero => rw [scanIncFile_zero] at h; cases h
     | succ fuel =>
       rw [List.cons_append] at h
       cases t with
       | dir d =>
-        rw [scanFile_dir] at h
+        rw [scanIncFile_dir] at h
         cases hfl : flushPending st with
         | error e => simp [hfl] at h
         | ok st' =>
@@ -133,7 +133,7 @@ theorem ok_suffix (fs : FS) (stack : List (Nat × Nat)) (cur : Nat) (rest : List
           · cases h
           · exact ih _ _ _ h
       | close =>
-        rw [scanFile_close] at h
+        rw [scanIncFile_close] at h
         cases hfl : flushPending st with
         | error e => simp [hfl] at h
         | ok st' =>
@@ -142,7 +142,7 @@ theorem ok_suffix (fs : FS) (stack : List (Nat × Nat)) (cur : Nat) (rest : List
           | error e => simp [hc] at h
           | ok c => simp only [hc] at h; exact ih _ _ _ h
       | incl f valid =>
-        rw [scanFile_incl] at h
+        rw [scanIncFile_incl] at h
         cases valid with
         | false => simp at h
         | true =>
@@ -157,18 +157,18 @@ theorem ok_suffix (fs : FS) (stack : List (Nat × Nat)) (cur : Nat) (rest : List
               | true => simp [hs] at h
               | false =>
                 simp only [hs] at h
-                cases hi : scanFile fs fuel ((cur, pos) :: stack) f 0 body st with
+                cases hi : scanIncFile fs fuel ((cur, pos) :: stack) f 0 body st with
                 | error e => simp [hi] at h
                 | ok st' => simp only [hi] at h; exact ih _ _ _ (by simpa using h)
 
 /-- a JSIGHT directive at the head of the remaining tokens of an included file -/
 theorem jsight_head_not_ok (fs : FS) (fuel : Nat) (stack : List (Nat × Nat)) (cur pos : Nat) (d : Dir)
     (rest : List FTok) (st r : PScan) (hk : d.kind = Kind.Jsight) (hs : stack ≠ []) :
-    scanFile fs fuel stack cur pos (.dir d :: rest) st ≠ .ok r := by
+    scanIncFile fs fuel stack cur pos (.dir d :: rest) st ≠ .ok r := by
   cases fuel with
-  | zero => rw [scanFile_zero]; intro h; cases h
+  | zero => rw [scanIncFile_zero]; intro h; cases h
   | succ fuel =>
-    rw [scanFile_dir]
+    rw [scanIncFile_dir]
     cases hfl : flushPending st with
     | error e => intro h; cases h
     | ok st' =>
@@ -180,11 +180,11 @@ theorem jsight_head_not_ok (fs : FS) (fuel : Nat) (stack : List (Nat × Nat)) (c
 /-- an INCLUDE at the head of the remaining tokens of a file that is itself on the include stack -/
 theorem incl_head_on_stack_not_ok (fs : FS) (fuel : Nat) (stack : List (Nat × Nat)) (cur pos f : Nat) (v : Bool)
     (rest : List FTok) (st r : PScan) (hs : stack.any (·.1 == cur) = true) :
-    scanFile fs fuel stack cur pos (.incl f v :: rest) st ≠ .ok r := by
+    scanIncFile fs fuel stack cur pos (.incl f v :: rest) st ≠ .ok r := by
   cases fuel with
-  | zero => rw [scanFile_zero]; intro h; cases h
+  | zero => rw [scanIncFile_zero]; intro h; cases h
   | succ fuel =>
-    rw [scanFile_incl]
+    rw [scanIncFile_incl]
     cases v with
     | false => simp
     | true =>
@@ -199,7 +199,7 @@ theorem incl_head_on_stack_not_ok (fs : FS) (fuel : Nat) (stack : List (Nat × N
 theorem incl_on_stack_not_ok (fs : FS) (fuel : Nat) (stack : List (Nat × Nat)) (cur pos : Nat)
     (toks : List FTok) (st r : PScan) (hs : stack.any (·.1 == cur) = true)
     (hi : ∃ f v, FTok.incl f v ∈ toks) :
-    scanFile fs fuel stack cur pos toks st ≠ .ok r := by
+    scanIncFile fs fuel stack cur pos toks st ≠ .ok r := by
   obtain ⟨f, v, hm⟩ := hi
   obtain ⟨pre, post, rfl⟩ := List.append_of_mem hm
   intro h
@@ -231,11 +231,11 @@ theorem stack_length_le {fs : FS} {stack : List (Nat × Nat)} (hn : (stack.map (
 def fuelBound (fs : FS) (stack : List (Nat × Nat)) (toks : List FTok) : Nat :=
   (fs.length - stack.length) * fsSize fs + toks.length + 1
 
-theorem scanFile_no_fuel (fs : FS) :
+theorem scanIncFile_no_fuel (fs : FS) :
     ∀ (fuel : Nat) (stack : List (Nat × Nat)) (cur pos : Nat) (toks : List FTok) (st : PScan),
       (stack.map (·.1)).Nodup → (∀ x ∈ stack, x.1 ∈ fs.map (·.1)) → cur ∈ fs.map (·.1) →
       fuelBound fs stack toks ≤ fuel →
-      scanFile fs fuel stack cur pos toks st ≠ .error (.inc .fuel) := by
+      scanIncFile fs fuel stack cur pos toks st ≠ .error (.inc .fuel) := by
   intro fuel
   induction fuel with
   | zero => intro stack cur pos toks st _ _ _ hb; unfold fuelBound at hb; omega
@@ -243,7 +243,7 @@ theorem scanFile_no_fuel (fs : FS) :
     intro stack cur pos toks st hn hm hc hb
     cases toks with
     | nil =>
-      rw [scanFile_nil]
+      rw [scanIncFile_nil]
       cases hfl : flushPending st with
       | error e =>
         unfold flushPending at hfl
@@ -266,7 +266,7 @@ theorem scanFile_no_fuel (fs : FS) :
           · cases hfl
       cases t with
       | dir d =>
-        rw [scanFile_dir]
+        rw [scanIncFile_dir]
         cases hfl : flushPending st with
         | error e => intro h; exact hflush e hfl (by injection h)
         | ok st' =>
@@ -275,7 +275,7 @@ theorem scanFile_no_fuel (fs : FS) :
           · intro h; cases h
           · exact ih _ _ _ _ _ hn hm hc hb'
       | close =>
-        rw [scanFile_close]
+        rw [scanIncFile_close]
         cases hfl : flushPending st with
         | error e => intro h; exact hflush e hfl (by injection h)
         | ok st' =>
@@ -284,7 +284,7 @@ theorem scanFile_no_fuel (fs : FS) :
           | error e => intro h; cases h
           | ok c => exact ih _ _ _ _ _ hn hm hc hb'
       | incl f valid =>
-        rw [scanFile_incl]
+        rw [scanIncFile_incl]
         cases valid with
         | false => intro h; cases h
         | true =>
@@ -313,7 +313,7 @@ theorem scanFile_no_fuel (fs : FS) :
                   omega
                 have hinner := ih ((cur, pos) :: stack) f 0 body st hn' hm' (get?_mem_ids hg) hbi
                 simp only [Bool.not_true, Bool.false_eq_true, if_false]
-                cases hi : scanFile fs fuel ((cur, pos) :: stack) f 0 body st with
+                cases hi : scanIncFile fs fuel ((cur, pos) :: stack) f 0 body st with
                 | error e => intro h; apply hinner; rw [hi]; exact h
                 | ok st' => exact ih _ _ _ _ _ hn hm hc hb'
 
@@ -413,21 +413,21 @@ theorem drop_cons {α} {all : List α} {pos : Nat} {t : α} {rest : List α} (h 
   cases h
   exact ⟨by simp, rfl⟩
 
-theorem scanFile_traces (fs : FS) (root : Nat) :
+theorem scanIncFile_traces (fs : FS) (root : Nat) :
     ∀ (fuel : Nat) (stack : List (Nat × Nat)) (cur pos : Nat) (toks : List FTok) (st : PScan)
       (all : List FTok) (r : PScan),
       Live fs root stack cur → fs.get? cur = some (.file all) → toks = all.drop pos →
       (stack.any (·.1 == cur) = true → ∃ g v, FTok.incl g v ∈ toks) →
       (∀ e ∈ st.traces, TraceOK fs root e) →
-      scanFile fs fuel stack cur pos toks st = .ok r → ∀ e ∈ r.traces, TraceOK fs root e := by
+      scanIncFile fs fuel stack cur pos toks st = .ok r → ∀ e ∈ r.traces, TraceOK fs root e := by
   intro fuel
   induction fuel with
-  | zero => intro stack cur pos toks st all r _ _ _ _ _ h; rw [scanFile_zero] at h; cases h
+  | zero => intro stack cur pos toks st all r _ _ _ _ _ h; rw [scanIncFile_zero] at h; cases h
   | succ fuel ih =>
     intro stack cur pos toks st all r hl hc ht hon htr h
     cases toks with
     | nil =>
-      rw [scanFile_nil] at h
+      rw [scanIncFile_nil] at h
       cases hfl : flushPending st with
       | error e => simp [hfl] at h
       | ok st' =>
@@ -452,7 +452,7 @@ theorem scanFile_traces (fs : FS) (root : Nat) :
           cases hs : stack.any (·.1 == cur) with
           | false => rfl
           | true => exact absurd h (incl_on_stack_not_ok fs _ stack cur pos _ st r hs (hon hs))
-        rw [scanFile_dir] at h
+        rw [scanIncFile_dir] at h
         cases hfl : flushPending st with
         | error e => simp [hfl] at h
         | ok st' =>
@@ -472,7 +472,7 @@ theorem scanFile_traces (fs : FS) (root : Nat) :
               rw [hnot] at this; cases this
       | close =>
         have hoff' := hoff (fun g v hh => by cases hh)
-        rw [scanFile_close] at h
+        rw [scanIncFile_close] at h
         cases hfl : flushPending st with
         | error e => simp [hfl] at h
         | ok st' =>
@@ -485,7 +485,7 @@ theorem scanFile_traces (fs : FS) (root : Nat) :
             intro e he
             rw [flush_traces hfl] at he; exact htr e he
       | incl f valid =>
-        rw [scanFile_incl] at h
+        rw [scanIncFile_incl] at h
         cases valid with
         | false => simp at h
         | true =>
@@ -500,11 +500,11 @@ theorem scanFile_traces (fs : FS) (root : Nat) :
               | true => simp [hs] at h
               | false =>
                 simp only [hs] at h
-                cases hi : scanFile fs fuel ((cur, pos) :: stack) f 0 body st with
+                cases hi : scanIncFile fs fuel ((cur, pos) :: stack) f 0 body st with
                 | error e => simp [hi] at h
                 | ok st' =>
                   simp only [hi] at h
-                  have h : scanFile fs fuel stack cur (pos + 1) rest st' = .ok r := by simpa using h
+                  have h : scanIncFile fs fuel stack cur (pos + 1) rest st' = .ok r := by simpa using h
                   have hl' : Live fs root ((cur, pos) :: stack) f := Live.push hl hs hc hpos hg
                   have htr' := ih ((cur, pos) :: stack) f 0 body st body st' hl' hg (by simp)
                     (fun hs' => hl'.has_incl hg hs') htr hi
@@ -557,13 +557,13 @@ theorem flush_no_fuel {st : PScan} {e : ProjErr} (h : flushPending st = .error e
   · cases h
 
 /-- more fuel does not change a result that is not the fuel error -/
-theorem scanFile_mono (fs : FS) :
+theorem scanIncFile_mono (fs : FS) :
     ∀ (fuel : Nat) (stack : List (Nat × Nat)) (cur pos : Nat) (toks : List FTok) (st : PScan) (k : Nat),
-      scanFile fs fuel stack cur pos toks st ≠ .error (.inc .fuel) →
-      scanFile fs (fuel + k) stack cur pos toks st = scanFile fs fuel stack cur pos toks st := by
+      scanIncFile fs fuel stack cur pos toks st ≠ .error (.inc .fuel) →
+      scanIncFile fs (fuel + k) stack cur pos toks st = scanIncFile fs fuel stack cur pos toks st := by
   intro fuel
   induction fuel with
-  | zero => intro stack cur pos toks st k h; exact absurd (scanFile_zero ..) h
+  | zero => intro stack cur pos toks st k h; exact absurd (scanIncFile_zero ..) h
   | succ fuel ih =>
     intro stack cur pos toks st k h
     have hk : fuel + 1 + k = (fuel + k) + 1 := by omega
@@ -573,8 +573,8 @@ theorem scanFile_mono (fs : FS) :
     | cons t rest =>
       cases t with
       | dir d =>
-        rw [scanFile_dir] at h
-        rw [scanFile_dir, scanFile_dir]
+        rw [scanIncFile_dir] at h
+        rw [scanIncFile_dir, scanIncFile_dir]
         cases hfl : flushPending st with
         | error e => rfl
         | ok st' =>
@@ -585,8 +585,8 @@ theorem scanFile_mono (fs : FS) :
             simp only [hj, Bool.false_eq_true, ↓reduceIte] at h ⊢
             exact ih _ _ _ _ _ _ h
       | close =>
-        rw [scanFile_close] at h
-        rw [scanFile_close, scanFile_close]
+        rw [scanIncFile_close] at h
+        rw [scanIncFile_close, scanIncFile_close]
         cases hfl : flushPending st with
         | error e => rfl
         | ok st' =>
@@ -597,8 +597,8 @@ theorem scanFile_mono (fs : FS) :
             simp only [hce] at h ⊢
             exact ih _ _ _ _ _ _ h
       | incl f valid =>
-        rw [scanFile_incl] at h
-        rw [scanFile_incl, scanFile_incl]
+        rw [scanIncFile_incl] at h
+        rw [scanIncFile_incl, scanIncFile_incl]
         cases valid with
         | false => rfl
         | true =>
@@ -613,39 +613,39 @@ theorem scanFile_mono (fs : FS) :
               | true => rfl
               | false =>
                 simp only [hs, Bool.not_true, Bool.false_eq_true, ↓reduceIte] at h ⊢
-                cases hi : scanFile fs fuel ((cur, pos) :: stack) f 0 body st with
+                cases hi : scanIncFile fs fuel ((cur, pos) :: stack) f 0 body st with
                 | error e =>
                   simp only [hi] at h
-                  have : scanFile fs fuel ((cur, pos) :: stack) f 0 body st ≠ .error (.inc .fuel) := by
+                  have : scanIncFile fs fuel ((cur, pos) :: stack) f 0 body st ≠ .error (.inc .fuel) := by
                     rw [hi]; exact h
                   rw [ih _ _ _ _ _ k this, hi]
                 | ok st' =>
                   simp only [hi] at h
-                  have : scanFile fs fuel ((cur, pos) :: stack) f 0 body st ≠ .error (.inc .fuel) := by
+                  have : scanIncFile fs fuel ((cur, pos) :: stack) f 0 body st ≠ .error (.inc .fuel) := by
                     rw [hi]; intro hh; cases hh
                   rw [ih _ _ _ _ _ k this, hi]
                   exact ih _ _ _ _ _ _ h
 
 /-- placing the pending directive beforehand does not change a scan (it is placed before anything else happens to the
 state, and an INCLUDE hands the state on unchanged) -/
-theorem scanFile_flush (fs : FS) :
+theorem scanIncFile_flush (fs : FS) :
     ∀ (fuel : Nat) (stack : List (Nat × Nat)) (cur pos : Nat) (toks : List FTok) (st stf : PScan),
       flushPending st = .ok stf →
-      scanFile fs fuel stack cur pos toks st = scanFile fs fuel stack cur pos toks stf := by
+      scanIncFile fs fuel stack cur pos toks st = scanIncFile fs fuel stack cur pos toks stf := by
   intro fuel
   induction fuel with
-  | zero => intro stack cur pos toks st stf _; rw [scanFile_zero, scanFile_zero]
+  | zero => intro stack cur pos toks st stf _; rw [scanIncFile_zero, scanIncFile_zero]
   | succ fuel ih =>
     intro stack cur pos toks st stf hfl
     have hfl' := flush_idem hfl
     cases toks with
-    | nil => rw [scanFile_nil, scanFile_nil, hfl, hfl']
+    | nil => rw [scanIncFile_nil, scanIncFile_nil, hfl, hfl']
     | cons t rest =>
       cases t with
-      | dir d => rw [scanFile_dir, scanFile_dir, hfl, hfl']
-      | close => rw [scanFile_close, scanFile_close, hfl, hfl']
+      | dir d => rw [scanIncFile_dir, scanIncFile_dir, hfl, hfl']
+      | close => rw [scanIncFile_close, scanIncFile_close, hfl, hfl']
       | incl f valid =>
-        rw [scanFile_incl, scanFile_incl]
+        rw [scanIncFile_incl, scanIncFile_incl]
         cases valid with
         | false => rfl
         | true =>
@@ -659,10 +659,10 @@ theorem scanFile_flush (fs : FS) :
 /-- a successful scan has placed the pending directive it started with -/
 theorem ok_flush (fs : FS) :
     ∀ (fuel : Nat) (stack : List (Nat × Nat)) (cur pos : Nat) (toks : List FTok) (st r : PScan),
-      scanFile fs fuel stack cur pos toks st = .ok r → ∃ stf, flushPending st = .ok stf := by
+      scanIncFile fs fuel stack cur pos toks st = .ok r → ∃ stf, flushPending st = .ok stf := by
   intro fuel
   induction fuel with
-  | zero => intro stack cur pos toks st r h; rw [scanFile_zero] at h; cases h
+  | zero => intro stack cur pos toks st r h; rw [scanIncFile_zero] at h; cases h
   | succ fuel ih =>
     intro stack cur pos toks st r h
     cases hfl : flushPending st with
@@ -670,13 +670,13 @@ theorem ok_flush (fs : FS) :
     | error e =>
       exfalso
       cases toks with
-      | nil => rw [scanFile_nil, hfl] at h; cases h
+      | nil => rw [scanIncFile_nil, hfl] at h; cases h
       | cons t rest =>
         cases t with
-        | dir d => rw [scanFile_dir, hfl] at h; cases h
-        | close => rw [scanFile_close, hfl] at h; cases h
+        | dir d => rw [scanIncFile_dir, hfl] at h; cases h
+        | close => rw [scanIncFile_close, hfl] at h; cases h
         | incl f valid =>
-          rw [scanFile_incl] at h
+          rw [scanIncFile_incl] at h
           cases valid with
           | false => simp at h
           | true =>
@@ -691,7 +691,7 @@ theorem ok_flush (fs : FS) :
                 | true => simp [hs] at h
                 | false =>
                   simp only [hs] at h
-                  cases hi : scanFile fs fuel ((cur, pos) :: stack) f 0 body st with
+                  cases hi : scanIncFile fs fuel ((cur, pos) :: stack) f 0 body st with
                   | error e' => simp [hi] at h
                   | ok st' =>
                     obtain ⟨stf, hstf⟩ := ih _ _ _ _ _ _ hi
@@ -703,13 +703,13 @@ theorem view_error_inc (a b : InclErr) (h : erasePosI a = erasePosI b) :
 
 /-- the outcome of a scan, up to positions and traces, depends on the state only through `ctx` and `pending`, and on
 the stack only through its file ids -/
-theorem scanFile_view (fs : FS) :
+theorem scanIncFile_view (fs : FS) :
     ∀ (fuel : Nat) (s1 s2 : List (Nat × Nat)) (cur p1 p2 : Nat) (toks : List FTok) (st1 st2 : PScan),
       s1.map (·.1) = s2.map (·.1) → st1.ctx = st2.ctx → st1.pending = st2.pending →
-      view (scanFile fs fuel s1 cur p1 toks st1) = view (scanFile fs fuel s2 cur p2 toks st2) := by
+      view (scanIncFile fs fuel s1 cur p1 toks st1) = view (scanIncFile fs fuel s2 cur p2 toks st2) := by
   intro fuel
   induction fuel with
-  | zero => intro s1 s2 cur p1 p2 toks st1 st2 _ _ _; rw [scanFile_zero, scanFile_zero]
+  | zero => intro s1 s2 cur p1 p2 toks st1 st2 _ _ _; rw [scanIncFile_zero, scanIncFile_zero]
   | succ fuel ih =>
     intro s1 s2 cur p1 p2 toks st1 st2 hs hc hp
     have hempty : s1.isEmpty = s2.isEmpty := by
@@ -729,7 +729,7 @@ theorem scanFile_view (fs : FS) :
       | ok c => exact Or.inr ⟨_, _, rfl, rfl, rfl, rfl⟩
     cases toks with
     | nil =>
-      rw [scanFile_nil, scanFile_nil]
+      rw [scanIncFile_nil, scanIncFile_nil]
       rcases hflush with ⟨e, h1, h2⟩ | ⟨a, b, h1, h2, hab, hab'⟩
       · rw [h1, h2]
       · rw [h1, h2]; simp only [hab]
@@ -739,7 +739,7 @@ theorem scanFile_view (fs : FS) :
     | cons t rest =>
       cases t with
       | dir d =>
-        rw [scanFile_dir, scanFile_dir]
+        rw [scanIncFile_dir, scanIncFile_dir]
         rcases hflush with ⟨e, h1, h2⟩ | ⟨a, b, h1, h2, hab, hab'⟩
         · rw [h1, h2]
         · rw [h1, h2]; simp only [hempty]
@@ -747,7 +747,7 @@ theorem scanFile_view (fs : FS) :
           · exact view_error_inc _ _ rfl
           · exact ih _ _ _ _ _ _ _ _ hs hab rfl
       | close =>
-        rw [scanFile_close, scanFile_close]
+        rw [scanIncFile_close, scanIncFile_close]
         rcases hflush with ⟨e, h1, h2⟩ | ⟨a, b, h1, h2, hab, hab'⟩
         · rw [h1, h2]
         · rw [h1, h2]; simp only [hab]
@@ -755,7 +755,7 @@ theorem scanFile_view (fs : FS) :
           | error e => rfl
           | ok c => exact ih _ _ _ _ _ _ _ _ hs rfl hab'
       | incl f valid =>
-        rw [scanFile_incl, scanFile_incl]
+        rw [scanIncFile_incl, scanIncFile_incl]
         cases valid with
         | false => exact view_error_inc _ _ rfl
         | true =>
@@ -772,13 +772,13 @@ theorem scanFile_view (fs : FS) :
                 simp only [Bool.not_true, Bool.false_eq_true, ↓reduceIte]
                 have hin := ih ((cur, p1) :: s1) ((cur, p2) :: s2) f 0 0 body st1 st2
                   (by simp [hs]) hc hp
-                cases h1 : scanFile fs fuel ((cur, p1) :: s1) f 0 body st1 with
+                cases h1 : scanIncFile fs fuel ((cur, p1) :: s1) f 0 body st1 with
                 | error e1 =>
-                  cases h2 : scanFile fs fuel ((cur, p2) :: s2) f 0 body st2 with
+                  cases h2 : scanIncFile fs fuel ((cur, p2) :: s2) f 0 body st2 with
                   | error e2 => rw [h1, h2] at hin; exact hin
                   | ok b => rw [h1, h2] at hin; simp [view] at hin
                 | ok a =>
-                  cases h2 : scanFile fs fuel ((cur, p2) :: s2) f 0 body st2 with
+                  cases h2 : scanIncFile fs fuel ((cur, p2) :: s2) f 0 body st2 with
                   | error e2 => rw [h1, h2] at hin; simp [view] at hin
                   | ok b =>
                     rw [h1, h2] at hin
@@ -802,13 +802,13 @@ def flatRun : List FTok → Ctx → Option Dir → Except CtxErr (Ctx × Option 
   | .incl _ _ :: r, c, p => flatRun r c p
 
 /-- scanning a token list without INCLUDE and JSIGHT in front of `X`: independent of stack, file and position -/
-theorem scanFile_plain (fs : FS) (stack : List (Nat × Nat)) (cur : Nat) (X : List FTok) :
+theorem scanIncFile_plain (fs : FS) (stack : List (Nat × Nat)) (cur : Nat) (X : List FTok) :
     ∀ (body : List FTok), (∀ g v, FTok.incl g v ∉ body) → (∀ d, FTok.dir d ∈ body → d.kind ≠ Kind.Jsight) →
       ∀ (n pos : Nat) (st : PScan), ∃ tr,
-        scanFile fs (n + body.length) stack cur pos (body ++ X) st =
+        scanIncFile fs (n + body.length) stack cur pos (body ++ X) st =
           match flatRun body st.ctx st.pending with
           | .error e => .error (.ctx e)
-          | .ok cp => scanFile fs n stack cur (pos + body.length) X
+          | .ok cp => scanIncFile fs n stack cur (pos + body.length) X
               { ctx := cp.1, pending := cp.2, traces := tr } := by
   intro body
   induction body with
@@ -826,7 +826,7 @@ theorem scanFile_plain (fs : FS) (stack : List (Nat × Nat)) (cur : Nat) (X : Li
       have hk : (d.kind == Kind.Jsight) = false := by
         have := hjs d (List.mem_cons_self ..)
         simpa using this
-      rw [scanFile_dir, flush_eq]
+      rw [scanIncFile_dir, flush_eq]
       simp only [flatRun]
       cases flushC st.ctx st.pending with
       | error e => exact ⟨[], rfl⟩
@@ -834,7 +834,7 @@ theorem scanFile_plain (fs : FS) (stack : List (Nat × Nat)) (cur : Nat) (X : Li
         simp only [hk, Bool.false_and, Bool.false_eq_true, ↓reduceIte]
         exact ih hincl' hjs' n (pos + 1) _
     | close =>
-      rw [scanFile_close, flush_eq]
+      rw [scanIncFile_close, flush_eq]
       simp only [flatRun]
       cases flushC st.ctx st.pending with
       | error e => exact ⟨[], rfl⟩
@@ -846,19 +846,19 @@ theorem scanFile_plain (fs : FS) (stack : List (Nat × Nat)) (cur : Nat) (X : Li
     | incl g v => exact absurd (List.mem_cons_self ..) (hincl g v)
 
 /-- the scan of a prefix: an error, or a state from which the rest is scanned; the same for every continuation -/
-theorem scanFile_prefix (fs : FS) (stack : List (Nat × Nat)) (cur : Nat) :
+theorem scanIncFile_prefix (fs : FS) (stack : List (Nat × Nat)) (cur : Nat) :
     ∀ (pre : List FTok) (N pos : Nat) (st : PScan), ∃ o : Except ProjErr PScan, ∀ X : List FTok,
-      scanFile fs N stack cur pos (pre ++ X) st =
+      scanIncFile fs N stack cur pos (pre ++ X) st =
         match o with
         | .error e => .error e
-        | .ok st1 => scanFile fs (N - pre.length) stack cur (pos + pre.length) X st1 := by
+        | .ok st1 => scanIncFile fs (N - pre.length) stack cur (pos + pre.length) X st1 := by
   intro pre
   induction pre with
   | nil => intro N pos st; exact ⟨.ok st, fun X => rfl⟩
   | cons t pre ih =>
     intro N pos st
     cases N with
-    | zero => exact ⟨.error (.inc .fuel), fun X => scanFile_zero ..⟩
+    | zero => exact ⟨.error (.inc .fuel), fun X => scanIncFile_zero ..⟩
     | succ N =>
       have hlen : N + 1 - (t :: pre).length = N - pre.length := by simp only [List.length_cons]; omega
       have hpos : pos + (t :: pre).length = (pos + 1) + pre.length := by simp only [List.length_cons]; omega
@@ -866,85 +866,85 @@ theorem scanFile_prefix (fs : FS) (stack : List (Nat × Nat)) (cur : Nat) :
       cases t with
       | dir d =>
         cases hfl : flushPending st with
-        | error e => exact ⟨.error e, fun X => by rw [List.cons_append, scanFile_dir, hfl]⟩
+        | error e => exact ⟨.error e, fun X => by rw [List.cons_append, scanIncFile_dir, hfl]⟩
         | ok st' =>
           cases hj : (d.kind == Kind.Jsight && !stack.isEmpty) with
           | true =>
             exact ⟨.error (.inc (.jsightInIncluded cur pos)), fun X => by
-              rw [List.cons_append, scanFile_dir, hfl]; simp only [hj, ↓reduceIte]⟩
+              rw [List.cons_append, scanIncFile_dir, hfl]; simp only [hj, ↓reduceIte]⟩
           | false =>
             obtain ⟨o, ho⟩ := ih N (pos + 1) { st' with pending := some d, traces := st'.traces ++ [(d.id, stack)] }
             exact ⟨o, fun X => by
-              rw [List.cons_append, scanFile_dir, hfl]
+              rw [List.cons_append, scanIncFile_dir, hfl]
               simp only [hj, Bool.false_eq_true, ↓reduceIte]
               exact ho X⟩
       | close =>
         cases hfl : flushPending st with
-        | error e => exact ⟨.error e, fun X => by rw [List.cons_append, scanFile_close, hfl]⟩
+        | error e => exact ⟨.error e, fun X => by rw [List.cons_append, scanIncFile_close, hfl]⟩
         | ok st' =>
           cases hce : closeExplicit st'.ctx.frames st'.ctx.roots with
-          | error e => exact ⟨.error (.ctx e), fun X => by rw [List.cons_append, scanFile_close, hfl]; simp only [hce]⟩
+          | error e => exact ⟨.error (.ctx e), fun X => by rw [List.cons_append, scanIncFile_close, hfl]; simp only [hce]⟩
           | ok c =>
             obtain ⟨o, ho⟩ := ih N (pos + 1) { st' with ctx := c }
             exact ⟨o, fun X => by
-              rw [List.cons_append, scanFile_close, hfl]; simp only [hce]; exact ho X⟩
+              rw [List.cons_append, scanIncFile_close, hfl]; simp only [hce]; exact ho X⟩
       | incl g v =>
         cases v with
         | false =>
-          exact ⟨.error (.inc (.badName cur pos)), fun X => by rw [List.cons_append, scanFile_incl]; rfl⟩
+          exact ⟨.error (.inc (.badName cur pos)), fun X => by rw [List.cons_append, scanIncFile_incl]; rfl⟩
         | true =>
           cases hg : fs.get? g with
           | none =>
-            exact ⟨.error (.inc (.missing cur pos)), fun X => by rw [List.cons_append, scanFile_incl, hg]; rfl⟩
+            exact ⟨.error (.inc (.missing cur pos)), fun X => by rw [List.cons_append, scanIncFile_incl, hg]; rfl⟩
           | some e =>
             cases e with
             | directory =>
               exact ⟨.error (.inc (.isDirectory cur pos)), fun X => by
-                rw [List.cons_append, scanFile_incl, hg]; rfl⟩
+                rw [List.cons_append, scanIncFile_incl, hg]; rfl⟩
             | file body =>
               cases hs : stack.any (·.1 == cur) with
               | true =>
                 exact ⟨.error (.inc (.recursion cur pos)), fun X => by
-                  rw [List.cons_append, scanFile_incl, hg]; simp [hs]⟩
+                  rw [List.cons_append, scanIncFile_incl, hg]; simp [hs]⟩
               | false =>
-                cases hi : scanFile fs N ((cur, pos) :: stack) g 0 body st with
+                cases hi : scanIncFile fs N ((cur, pos) :: stack) g 0 body st with
                 | error e =>
                   exact ⟨.error e, fun X => by
-                    rw [List.cons_append, scanFile_incl_file fs N stack cur pos g _ body st hg hs, hi]⟩
+                    rw [List.cons_append, scanIncFile_incl_file fs N stack cur pos g _ body st hg hs, hi]⟩
                 | ok st' =>
                   obtain ⟨o, ho⟩ := ih N (pos + 1) st'
                   exact ⟨o, fun X => by
-                    rw [List.cons_append, scanFile_incl_file fs N stack cur pos g _ body st hg hs, hi]
+                    rw [List.cons_append, scanIncFile_incl_file fs N stack cur pos g _ body st hg hs, hi]
                     exact ho X⟩
 
 /-- the INCLUDE of a file without INCLUDE and JSIGHT, against its text, from the same state: the complete comparison -/
 theorem textual_at (fs : FS) (stack : List (Nat × Nat)) (cur pos f : Nat) (body post : List FTok) (st : PScan)
     (hf : fs.get? f = some (.file body)) (hincl : ∀ g v, FTok.incl g v ∉ body)
     (hjs : ∀ d, FTok.dir d ∈ body → d.kind ≠ Kind.Jsight) (hs : stack.any (·.1 == cur) = false) (n1 n2 : Nat)
-    (h1 : scanFile fs n1 stack cur pos (FTok.incl f true :: post) st ≠ .error (.inc .fuel))
-    (h2 : scanFile fs n2 stack cur pos (body ++ post) st ≠ .error (.inc .fuel)) :
+    (h1 : scanIncFile fs n1 stack cur pos (FTok.incl f true :: post) st ≠ .error (.inc .fuel))
+    (h2 : scanIncFile fs n2 stack cur pos (body ++ post) st ≠ .error (.inc .fuel)) :
     match flatRun body st.ctx st.pending with
     | .error e =>
-      scanFile fs n1 stack cur pos (FTok.incl f true :: post) st = .error (.ctx e) ∧
-      scanFile fs n2 stack cur pos (body ++ post) st = .error (.ctx e)
+      scanIncFile fs n1 stack cur pos (FTok.incl f true :: post) st = .error (.ctx e) ∧
+      scanIncFile fs n2 stack cur pos (body ++ post) st = .error (.ctx e)
     | .ok cp =>
       match flushC cp.1 cp.2 with
       | .error e =>
-        scanFile fs n1 stack cur pos (FTok.incl f true :: post) st = .error (.ctx e) ∧
-        ∀ r', scanFile fs n2 stack cur pos (body ++ post) st ≠ .ok r'
+        scanIncFile fs n1 stack cur pos (FTok.incl f true :: post) st = .error (.ctx e) ∧
+        ∀ r', scanIncFile fs n2 stack cur pos (body ++ post) st ≠ .ok r'
       | .ok c' =>
         if anyExplicit c'.frames then
-          scanFile fs n1 stack cur pos (FTok.incl f true :: post) st = .error (.ctx .unclosedAtEOF)
-        else view (scanFile fs n1 stack cur pos (FTok.incl f true :: post) st) =
-          view (scanFile fs n2 stack cur pos (body ++ post) st) := by
-  have hcut := scanFile_mono fs n1 stack cur pos (FTok.incl f true :: post) st (n2 + body.length + 2) h1
-  have hspl := scanFile_mono fs n2 stack cur pos (body ++ post) st (n1 + body.length + body.length + 1) h2
+          scanIncFile fs n1 stack cur pos (FTok.incl f true :: post) st = .error (.ctx .unclosedAtEOF)
+        else view (scanIncFile fs n1 stack cur pos (FTok.incl f true :: post) st) =
+          view (scanIncFile fs n2 stack cur pos (body ++ post) st) := by
+  have hcut := scanIncFile_mono fs n1 stack cur pos (FTok.incl f true :: post) st (n2 + body.length + 2) h1
+  have hspl := scanIncFile_mono fs n2 stack cur pos (body ++ post) st (n1 + body.length + body.length + 1) h2
   have e1 : n1 + (n2 + body.length + 2) = (n1 + n2 + 1 + body.length) + 1 := by omega
   have e2 : n2 + (n1 + body.length + body.length + 1) = (n1 + n2 + 1 + body.length) + body.length := by omega
-  rw [e1, scanFile_incl_file fs _ stack cur pos f post body st hf hs] at hcut
+  rw [e1, scanIncFile_incl_file fs _ stack cur pos f post body st hf hs] at hcut
   rw [e2] at hspl
-  obtain ⟨tr1, hin⟩ := scanFile_plain fs ((cur, pos) :: stack) f [] body hincl hjs (n1 + n2 + 1) 0 st
-  obtain ⟨tr2, hout⟩ := scanFile_plain fs stack cur post body hincl hjs (n1 + n2 + 1 + body.length) pos st
+  obtain ⟨tr1, hin⟩ := scanIncFile_plain fs ((cur, pos) :: stack) f [] body hincl hjs (n1 + n2 + 1) 0 st
+  obtain ⟨tr2, hout⟩ := scanIncFile_plain fs stack cur post body hincl hjs (n1 + n2 + 1 + body.length) pos st
   rw [List.append_nil] at hin
   rw [hin] at hcut
   rw [hout] at hspl
@@ -953,7 +953,7 @@ theorem textual_at (fs : FS) (stack : List (Nat × Nat)) (cur pos f : Nat) (body
   | error e => exact ⟨rfl, rfl⟩
   | ok cp =>
     simp only []
-    rw [scanFile_nil, flush_eq]
+    rw [scanIncFile_nil, flush_eq]
     simp only []
     cases hfc : flushC cp.1 cp.2 with
     | error e =>
@@ -971,26 +971,26 @@ theorem textual_at (fs : FS) (stack : List (Nat × Nat)) (cur pos f : Nat) (body
         simp only [Bool.false_eq_true, ↓reduceIte]
         have hfl : flushPending { ctx := cp.1, pending := cp.2, traces := tr1 } =
             .ok { ctx := c', pending := none, traces := tr1 } := by rw [flush_eq]; simp only [hfc]
-        rw [← scanFile_flush fs _ stack cur (pos + 1) post _ _ hfl]
-        exact scanFile_view fs _ stack stack cur _ _ post _ _ rfl rfl rfl
+        rw [← scanIncFile_flush fs _ stack cur (pos + 1) post _ _ hfl]
+        exact scanIncFile_view fs _ stack stack cur _ _ post _ _ rfl rfl rfl
 
 /-- a comparison of the scans of two continuations `X`, `Y` carries over to `pre ++ X`, `pre ++ Y` -/
 theorem prefix_lift (fs : FS) (stack : List (Nat × Nat)) (cur : Nat) (pre X Y : List FTok)
     (Q : Except ProjErr PScan → Except ProjErr PScan → Prop) (hQe : ∀ e, Q (.error e) (.error e))
     (hQ : ∀ (m p : Nat) (st1 : PScan),
-      scanFile fs m stack cur p X st1 ≠ .error (.inc .fuel) → scanFile fs m stack cur p Y st1 ≠ .error (.inc .fuel) →
-      Q (scanFile fs m stack cur p X st1) (scanFile fs m stack cur p Y st1))
+      scanIncFile fs m stack cur p X st1 ≠ .error (.inc .fuel) → scanIncFile fs m stack cur p Y st1 ≠ .error (.inc .fuel) →
+      Q (scanIncFile fs m stack cur p X st1) (scanIncFile fs m stack cur p Y st1))
     (n1 n2 pos : Nat) (st : PScan)
-    (h1 : scanFile fs n1 stack cur pos (pre ++ X) st ≠ .error (.inc .fuel))
-    (h2 : scanFile fs n2 stack cur pos (pre ++ Y) st ≠ .error (.inc .fuel)) :
-    Q (scanFile fs n1 stack cur pos (pre ++ X) st) (scanFile fs n2 stack cur pos (pre ++ Y) st) := by
-  have e1 := scanFile_mono fs n1 stack cur pos (pre ++ X) st n2 h1
-  have e2 := scanFile_mono fs n2 stack cur pos (pre ++ Y) st n1 h2
+    (h1 : scanIncFile fs n1 stack cur pos (pre ++ X) st ≠ .error (.inc .fuel))
+    (h2 : scanIncFile fs n2 stack cur pos (pre ++ Y) st ≠ .error (.inc .fuel)) :
+    Q (scanIncFile fs n1 stack cur pos (pre ++ X) st) (scanIncFile fs n2 stack cur pos (pre ++ Y) st) := by
+  have e1 := scanIncFile_mono fs n1 stack cur pos (pre ++ X) st n2 h1
+  have e2 := scanIncFile_mono fs n2 stack cur pos (pre ++ Y) st n1 h2
   rw [Nat.add_comm n2 n1] at e2
   rw [← e1] at h1
   rw [← e2] at h2
   rw [← e1, ← e2]
-  obtain ⟨o, ho⟩ := scanFile_prefix fs stack cur pre (n1 + n2) pos st
+  obtain ⟨o, ho⟩ := scanIncFile_prefix fs stack cur pre (n1 + n2) pos st
   rw [ho X] at h1
   rw [ho Y] at h2
   rw [ho X, ho Y]
